@@ -92,6 +92,12 @@ CLAIMED = {
         note="In-process server; 150+ rows, some doubled / combined pairwise in the thorough tier; numbers sent to string options and error wording are left open; stdout purity is judged on the substituted stdout stream.",
         design_ref="DESIGN.md section 3, C15",
     ),
+    "C16": dict(
+        technique="TLA+ model of the menuconfig session as far as saving is concerned (spec/KMenu.tla: user values, picks, the per-option record of the main sdkconfig, unknown names, the file on disk; front-end guarded edits, resets, try_load, save + reload; NeedsSave transcribed from needs_save()); TLC explores all action sequences from five initial files with CleanMeansSaved / SavedMeansClean as invariants (spec/MC_Menu16.tla) and emits them; each is replayed on the real MenuConfigState through the application's own handlers and validated by TLC (spec/MC_Menu16Check.tla)",
+        text="Model checking: CleanMeansSaved and SavedMeansClean are invariants of the explored session model; every explored transition is executed on a real headless session (MenuConfigState + the app's action_save/_do_save/_handle_load_result/_apply_input on a stand-in), and TLC compares needs_save() and all values at every step and evaluates both clauses on the observations, the file being compared byte for byte with what write_config would write.",
+        note="Sessions <= 3 actions (those containing save/load kept first when capped); Textual UI not started; hand-edited initial files that were never saved are compared by effective entries instead of bytes.",
+        design_ref="DESIGN.md section 3, C16",
+    ),
 }
 
 REASON_PENDING = "check not built yet in this session (planned in DESIGN.md section 3); not claimed until its TLA+ model and conformance harness exist"
